@@ -1,0 +1,410 @@
+//go:build verif
+
+package stackage
+
+/*
+verif_on.go is only compiled with the `verif` build tag. It exposes
+the observation points and the raw state dump needed by the external
+verification harness. Nothing in this file alters the behaviour of
+the package: verifPoint only calls the (normally nil) VerifHook and
+VerifDump only reads.
+*/
+
+import (
+	"fmt"
+	"reflect"
+	"sort"
+	"strings"
+	"sync"
+	"unsafe"
+)
+
+/*
+VerifHook, when non-nil, is called at each lock observation point with
+the event name ("lock.want", "lock.held", "lock.release", "lock.released"),
+the identity of the *stack receiver and the identity of its mutex.
+*/
+var VerifHook func(ev string, stackID, mutexID uintptr)
+
+func verifPoint(ev string, r *stack, m *sync.Mutex) {
+	if h := VerifHook; h != nil {
+		h(ev, uintptr(unsafe.Pointer(r)), uintptr(unsafe.Pointer(m)))
+	}
+}
+
+/*
+VerifState is the raw record behind a Stack or Condition.
+*/
+type VerifState struct {
+	Class    string // "stack" or "condition"
+	Nil      bool   // embedded pointer is nil (zero or freed instance)
+	Addr     uintptr
+	CfgOK    bool // slot 0 holds the configuration record / cfg pointer non-nil
+	CfgAddr  uintptr
+	ID, Cat  string
+	Cap      int
+	Opt      uint16
+	Enc      [][]string
+	EncNil   bool
+	Err      error
+	AuxAddr  uintptr
+	AuxLen   int
+	AuxNil   bool
+	Typ      uint8
+	Sym, Ljc string
+	Mtx      uintptr
+	Ldr      bool
+	Ord      bool
+	LogOK    bool
+	LogLvl   uint16
+	LogAddr  uintptr
+	Funcs    [9]uintptr // evl ppf vpf rpf eqf lss umf maf mfn
+	SliceLen int
+	SliceCap int
+	Slots    []VerifSlot // user slots (stack only)
+	Kw       string      // condition only
+	Op       Operator    // condition only
+	Ex       *VerifSlot  // condition only
+}
+
+/*
+VerifSlot is one stored value: its dynamic type, the raw value and,
+when the value is a Stack, a Condition, an alias of either or a non-nil
+pointer to one, the dump of that nested instance.
+*/
+type VerifSlot struct {
+	Type string
+	Raw  any
+	Sub  *VerifState
+}
+
+var verifFuncNames = [9]string{"evl", "ppf", "vpf", "rpf", "eqf", "lss", "umf", "maf", "mfn"}
+
+func verifFnPtr(f any) uintptr {
+	v := reflect.ValueOf(f)
+	if !v.IsValid() || v.Kind() != reflect.Func || v.IsNil() {
+		return 0
+	}
+	return v.Pointer()
+}
+
+func (s *VerifState) fillCfg(c *nodeConfig) {
+	if c == nil {
+		return
+	}
+	s.CfgOK = true
+	s.CfgAddr = uintptr(unsafe.Pointer(c))
+	s.ID, s.Cat, s.Cap, s.Opt = c.id, c.cat, c.cap, uint16(c.opt)
+	s.EncNil = c.enc == nil
+	for _, e := range c.enc {
+		s.Enc = append(s.Enc, append([]string{}, e...))
+	}
+	s.Err = c.err
+	s.AuxNil = c.aux == nil
+	s.AuxLen = len(c.aux)
+	if c.aux != nil {
+		s.AuxAddr = reflect.ValueOf(c.aux).Pointer()
+	}
+	s.Typ, s.Sym, s.Ljc = uint8(c.typ), c.sym, c.ljc
+	s.Mtx = uintptr(unsafe.Pointer(c.mtx))
+	s.Ldr = c.ldr != nil
+	s.Ord = c.ord
+	if c.log != nil {
+		s.LogOK = true
+		s.LogLvl = uint16(c.log.lvl)
+		s.LogAddr = uintptr(unsafe.Pointer(c.log.log))
+	}
+	s.Funcs = [9]uintptr{
+		verifFnPtr(c.evl), verifFnPtr(c.ppf), verifFnPtr(c.vpf), verifFnPtr(c.rpf), verifFnPtr(c.eqf),
+		verifFnPtr(c.lss), verifFnPtr(c.umf), verifFnPtr(c.maf), verifFnPtr(c.mfn),
+	}
+}
+
+func verifDumpStack(p *stack, seen map[uintptr]bool) *VerifState {
+	s := &VerifState{Class: "stack"}
+	if p == nil {
+		s.Nil = true
+		return s
+	}
+	s.Addr = uintptr(unsafe.Pointer(p))
+	s.SliceLen, s.SliceCap = len(*p), cap(*p)
+	if seen[s.Addr] {
+		return s
+	}
+	seen[s.Addr] = true
+	defer delete(seen, s.Addr)
+	start := 0
+	if len(*p) > 0 {
+		if c, ok := (*p)[0].(*nodeConfig); ok {
+			s.fillCfg(c)
+			start = 1
+		}
+	}
+	for i := start; i < len(*p); i++ {
+		s.Slots = append(s.Slots, verifSlot((*p)[i], seen))
+	}
+	return s
+}
+
+func verifDumpCond(p *condition, seen map[uintptr]bool) *VerifState {
+	s := &VerifState{Class: "condition"}
+	if p == nil {
+		s.Nil = true
+		return s
+	}
+	s.Addr = uintptr(unsafe.Pointer(p))
+	if seen[s.Addr] {
+		return s
+	}
+	seen[s.Addr] = true
+	defer delete(seen, s.Addr)
+	s.fillCfg(p.cfg)
+	s.Kw, s.Op = p.kw, p.op
+	ex := verifSlot(p.ex, seen)
+	s.Ex = &ex
+	return s
+}
+
+var (
+	verifStackType = reflect.TypeOf(Stack{})
+	verifCondType  = reflect.TypeOf(Condition{})
+)
+
+func verifSlot(x any, seen map[uintptr]bool) (sl VerifSlot) {
+	sl.Raw = x
+	if x == nil {
+		sl.Type = "nil"
+		return
+	}
+	sl.Type = fmt.Sprintf("%T", x)
+	switch tv := x.(type) {
+	case Stack:
+		sl.Sub = verifDumpStack(tv.stack, seen)
+		return
+	case Condition:
+		sl.Sub = verifDumpCond(tv.condition, seen)
+		return
+	}
+	v := reflect.ValueOf(x)
+	for v.Kind() == reflect.Ptr {
+		if v.IsNil() {
+			return
+		}
+		v = v.Elem()
+	}
+	if v.Kind() != reflect.Struct {
+		return
+	}
+	t := v.Type()
+	if t != verifStackType && t.ConvertibleTo(verifStackType) {
+		if st, ok := v.Convert(verifStackType).Interface().(Stack); ok {
+			sl.Sub = verifDumpStack(st.stack, seen)
+		}
+	} else if t == verifStackType {
+		if st, ok := v.Interface().(Stack); ok {
+			sl.Sub = verifDumpStack(st.stack, seen)
+		}
+	} else if t != verifCondType && t.ConvertibleTo(verifCondType) {
+		if co, ok := v.Convert(verifCondType).Interface().(Condition); ok {
+			sl.Sub = verifDumpCond(co.condition, seen)
+		}
+	} else if t == verifCondType {
+		if co, ok := v.Interface().(Condition); ok {
+			sl.Sub = verifDumpCond(co.condition, seen)
+		}
+	}
+	return
+}
+
+/*
+VerifDump returns the raw state of x, which may be a Stack, a Condition,
+an alias of either, or a pointer to one. For anything else the result
+has Class "other" and only describes the value itself.
+*/
+func VerifDump(x any) *VerifState {
+	sl := verifSlot(x, map[uintptr]bool{})
+	if sl.Sub != nil {
+		return sl.Sub
+	}
+	ex := sl
+	return &VerifState{Class: "other", Ex: &ex}
+}
+
+/*
+Key renders the state canonically. With addrs false every memory
+address is left out (identities of functions and loggers are reduced
+to set/unset), so two separately built but equal structures produce
+equal keys; with addrs true identities are included, which makes the
+key suitable for before/after comparison of one live structure.
+*/
+func (s *VerifState) Key(addrs bool) string {
+	var b strings.Builder
+	s.key(&b, addrs)
+	return b.String()
+}
+
+func (s *VerifState) key(b *strings.Builder, addrs bool) {
+	if s == nil {
+		b.WriteString("<nil-state>")
+		return
+	}
+	fmt.Fprintf(b, "%s{", s.Class)
+	if s.Nil {
+		b.WriteString("NIL}")
+		return
+	}
+	if addrs {
+		fmt.Fprintf(b, "@%x cfg@%x ", s.Addr, s.CfgAddr)
+	}
+	fmt.Fprintf(b, "cfgok=%v id=%q cat=%q cap=%d opt=%d enc=%q encnil=%v err=", s.CfgOK, s.ID, s.Cat, s.Cap, s.Opt, s.Enc, s.EncNil && addrs)
+	if s.Err == nil {
+		b.WriteString("nil")
+	} else if addrs {
+		fmt.Fprintf(b, "%T(%p)%q", s.Err, s.Err, s.Err.Error())
+	} else {
+		fmt.Fprintf(b, "%q", s.Err.Error())
+	}
+	fmt.Fprintf(b, " auxnil=%v auxlen=%d typ=%d sym=%q ljc=%q mtx=%v ldr=%v ord=%v logok=%v lvl=%d", s.AuxNil, s.AuxLen, s.Typ, s.Sym, s.Ljc, s.Mtx != 0, s.Ldr, s.Ord, s.LogOK, s.LogLvl)
+	if addrs {
+		fmt.Fprintf(b, " aux@%x mtx@%x log@%x", s.AuxAddr, s.Mtx, s.LogAddr)
+	}
+	b.WriteString(" fn=")
+	for i, f := range s.Funcs {
+		if f != 0 {
+			if addrs {
+				fmt.Fprintf(b, "%s@%x,", verifFuncNames[i], f)
+			} else {
+				fmt.Fprintf(b, "%s,", verifFuncNames[i])
+			}
+		}
+	}
+	if s.Class == "stack" {
+		fmt.Fprintf(b, " len=%d", s.SliceLen)
+		if addrs {
+			fmt.Fprintf(b, " cap=%d", s.SliceCap)
+		}
+		b.WriteString(" [")
+		for i := range s.Slots {
+			if i > 0 {
+				b.WriteString(" | ")
+			}
+			s.Slots[i].key(b, addrs)
+		}
+		b.WriteString("]")
+	} else {
+		fmt.Fprintf(b, " kw=%q op=", s.Kw)
+		if s.Op == nil {
+			b.WriteString("nil")
+		} else {
+			fmt.Fprintf(b, "%T:%s", s.Op, verifValue(s.Op, addrs))
+		}
+		b.WriteString(" ex=")
+		if s.Ex != nil {
+			s.Ex.key(b, addrs)
+		}
+	}
+	b.WriteString("}")
+}
+
+func (sl *VerifSlot) key(b *strings.Builder, addrs bool) {
+	b.WriteString(sl.Type)
+	if sl.Sub != nil {
+		b.WriteString("=>")
+		sl.Sub.key(b, addrs)
+		return
+	}
+	b.WriteString(":")
+	b.WriteString(verifValue(sl.Raw, addrs))
+}
+
+/*
+verifValue renders a stored (non stackage) value without ever calling
+one of its methods.
+*/
+func verifValue(x any, addrs bool) string {
+	if x == nil {
+		return "nil"
+	}
+	return verifRV(reflect.ValueOf(x), addrs, 0)
+}
+
+func verifRV(v reflect.Value, addrs bool, depth int) string {
+	if !v.IsValid() {
+		return "<invalid>"
+	}
+	if depth > 6 {
+		return "..."
+	}
+	switch v.Kind() {
+	case reflect.Bool:
+		return fmt.Sprintf("%v", v.Bool())
+	case reflect.Int, reflect.Int8, reflect.Int16, reflect.Int32, reflect.Int64:
+		return fmt.Sprintf("%d", v.Int())
+	case reflect.Uint, reflect.Uint8, reflect.Uint16, reflect.Uint32, reflect.Uint64, reflect.Uintptr:
+		return fmt.Sprintf("%d", v.Uint())
+	case reflect.Float32, reflect.Float64:
+		return fmt.Sprintf("%v", v.Float())
+	case reflect.Complex64, reflect.Complex128:
+		return fmt.Sprintf("%v", v.Complex())
+	case reflect.String:
+		return fmt.Sprintf("%q", v.String())
+	case reflect.Ptr:
+		if v.IsNil() {
+			return "nilptr"
+		}
+		if addrs {
+			return fmt.Sprintf("&@%x(%s)", v.Pointer(), verifRV(v.Elem(), addrs, depth+1))
+		}
+		return "&(" + verifRV(v.Elem(), addrs, depth+1) + ")"
+	case reflect.Interface:
+		if v.IsNil() {
+			return "nil"
+		}
+		return v.Elem().Type().String() + ":" + verifRV(v.Elem(), addrs, depth+1)
+	case reflect.Slice, reflect.Array:
+		if v.Kind() == reflect.Slice && v.IsNil() {
+			return "nilslice"
+		}
+		parts := make([]string, 0, v.Len())
+		for i := 0; i < v.Len(); i++ {
+			parts = append(parts, verifRV(v.Index(i), addrs, depth+1))
+		}
+		return "[" + strings.Join(parts, ",") + "]"
+	case reflect.Map:
+		if v.IsNil() {
+			return "nilmap"
+		}
+		parts := make([]string, 0, v.Len())
+		for _, k := range v.MapKeys() {
+			parts = append(parts, verifRV(k, addrs, depth+1)+"="+verifRV(v.MapIndex(k), addrs, depth+1))
+		}
+		sort.Strings(parts)
+		return "map[" + strings.Join(parts, ",") + "]"
+	case reflect.Struct:
+		t := v.Type()
+		if t == verifStackType || t == verifCondType {
+			f := v.Field(0)
+			if f.IsNil() {
+				return t.String() + "{nil}"
+			}
+			if addrs {
+				return fmt.Sprintf("%s{@%x}", t.String(), f.Pointer())
+			}
+			return t.String() + "{set}"
+		}
+		parts := make([]string, 0, v.NumField())
+		for i := 0; i < v.NumField(); i++ {
+			parts = append(parts, t.Field(i).Name+"="+verifRV(v.Field(i), addrs, depth+1))
+		}
+		return "{" + strings.Join(parts, ",") + "}"
+	case reflect.Func, reflect.Chan, reflect.UnsafePointer:
+		if v.IsNil() {
+			return "nil" + v.Kind().String()
+		}
+		if addrs {
+			return fmt.Sprintf("%s@%x", v.Kind(), v.Pointer())
+		}
+		return v.Kind().String()
+	}
+	return "<" + v.Kind().String() + ">"
+}
